@@ -141,7 +141,8 @@ def render(model, order, rng, extras=True, metadata=True, variant=0):
             for pn, pv in params:
                 args.append("%s = %s" % (pn, param_text(pv)))
         if metadata and rng.random() < 0.4:
-            args.append('Metadata = [DisplayName: "node %d", Units: m]' % (k + 1))
+            # metadata may be written anywhere among the arguments
+            args.insert(rng.randint(0, len(args)), 'Metadata = [DisplayName: "node %d", Units: m]' % (k + 1))
         cmds.append((names[k], cmd, args))
     if extras:
         allnames = list(names)
